@@ -103,7 +103,7 @@ PROPS = {
     'C01': dict(level=MC, rule=RULE, assumptions=ASSUME_URL, models=[M_PARSER],
                 workloads=[W_MC_REPLAY, W_WPT_URL, W_PARSE(2500, 60000), W_SIMD(1500, 40000)]),
     'C03': dict(level=MC, rule=RULE, assumptions=ASSUME_URL,
-                workloads=[W_WPT_SET, W_HIST(700, 20000)]),
+                workloads=[W_WPT_SET, W_HIST(700, 20000), W_HOST(400, 15000)]),
     'C04': dict(level=MC, rule=RULE, assumptions=ASSUME_URL,
                 workloads=[W_WPT_URL, W_PARSE(1500, 40000), W_HIST(500, 15000)]),
     'C05': dict(level=MC, rule=RULE, assumptions=ASSUME_URL,
